@@ -329,7 +329,7 @@ func checkC06(c *Check) {
 	checkNoSharedState(c, "O-C06.4")
 	// what counts as an answer from an OCSP responder at all: 200, not an OCSP error body,
 	// verified by ParseResponseForCert for (cert, issuer), signed by an authorised responder (O-C04.3)
-	c.floor("OCSP exchange rules (shared with C04)", 10, shareRules(c, checkC04, []string{"O-C04.3"}, "O-C06.1", "OCSP answer: "))
+	c.floor("OCSP exchange rules (shared with C04)", 10, shareRules(c, checkC04, []string{"O-C04.2", "O-C04.3"}, "O-C06.1", "OCSP answer: "))
 }
 
 func isLastElemResult(e ast.Expr) bool {
